@@ -641,6 +641,11 @@ type respRec struct {
 	Status int
 	Hdr    http.Header
 	Body   bytes.Buffer
+	// stallUntil, if set, makes the client stop taking the response body until the condition holds (controlled
+	// executions only): the handler's first Write blocks
+	stallUntil func() bool
+	stalled    bool
+	nWrites    int
 }
 
 func (w *respRec) Header() http.Header { return w.Hdr }
@@ -661,16 +666,28 @@ func (w *respRec) Write(p []byte) (int, error) {
 	if w.Status == 0 {
 		w.Status = 200
 	}
+	// (slow client: other threads may also run between two Writes of one body)
+	if respSlowClient && w.nWrites > 0 {
+		vsched.Yield("ResponseWriter.Write")
+	}
+	w.nWrites++
+	if w.stallUntil != nil && !w.stalled {
+		w.stalled = true
+		vsched.ParkUntil(w.stallUntil, "a client that does not take the response body")
+	}
 	return w.Body.Write(p)
 }
 
 // muxGet issues an in-process GET; Status 0 means the muxer wrote nothing at all (unknown path).
-func muxGet(m *Muxer, pathAndQuery string) *respRec {
+func muxGet(m *Muxer, pathAndQuery string) *respRec { return muxGetStalled(m, pathAndQuery, nil) }
+
+// muxGetStalled: the client stops taking the response body until stallUntil holds (nil: never stalls).
+func muxGetStalled(m *Muxer, pathAndQuery string, stallUntil func() bool) *respRec {
 	u, err := url.Parse("http://localhost/" + pathAndQuery)
 	if err != nil {
 		return &respRec{Status: -1}
 	}
-	w := &respRec{Hdr: http.Header{}}
+	w := &respRec{Hdr: http.Header{}, stallUntil: stallUntil}
 	m.Handle(w, &http.Request{Method: "GET", URL: u, Header: http.Header{}})
 	return w
 }
